@@ -164,6 +164,10 @@ def fresh_views(ctx, rule):
                 ctx.check(ok, rule, b.path, "fresh-state", "a new or cloned SourceView starts unindexed (counter 0, empty cache)", ctx.site(b, bi, si), detail=q.shape(a)[:200])
                 if ok:
                     src_of.setdefault(b.path, []).append(q.shape(a.field("source")))
+                # the text a view shows is the text it was given: whole, unchanged (a constructor that drops a BOM or trims
+                # makes the same contents read differently depending on how the view was made)
+                ssh = q.shape(a.field("source"))
+                ctx.check(ssh in ("arg1", "arg1.source") or ssh.startswith("from<") and ssh.endswith("(arg1)"), rule, b.path, "text-as-given", "the view's text is exactly the constructor's argument (or the cloned view's text)", ctx.site(b, bi, si), detail=ssh)
     ctx.floor(rule, "sourceview", "SourceView constructions", n, 1)
     # every function that hands out a SourceView by value builds a fresh literal or calls one that does
     makers = [b for b in ctx.facts.local_fns() if b.sig and b.sig.rstrip().endswith("-> sourceview::SourceView") and b.kind != "Closure"]
@@ -238,6 +242,23 @@ def r5_monotone(ctx, rule="C15.R4"):
 
 
 # ---------------------------------------------------------------------------------------------
+def _loop_always(b, head, blk):
+    """Every pass through the loop body (head -> ... -> head) goes through blk."""
+    body = dict(b.loops()).get(head, set())
+    seen, stack = set(), [s_ for s_ in b.succ[head] if s_ in body]
+    while stack:
+        x = stack.pop()
+        if x == blk or x in seen:
+            continue
+        seen.add(x)
+        for y in b.succ[x]:
+            if y == head:
+                return False
+            if y in body and y not in seen:
+                stack.append(y)
+    return blk in body
+
+
 def c15_r1_protocol(ctx, rule="C15.R1"):
     b = ctx.body(GET_LINE)
     fn = b.path
@@ -297,6 +318,26 @@ def c15_r1_protocol(ctx, rule="C15.R1"):
         ms = found.get("crlf-merge", [])
         ctx.check(all(b.dominates(piece[1][0], m[0]) and piece[1][0] != m[0] for m in ms), rule, fn, "piece:before-merge",
                   "the piece is taken before the index is advanced over the \\n of a \\r\\n pair")
+    # what is cached: every scanned piece, as it is - one unconditional push per loop iteration of exactly the bytes of the
+    # piece (rest[..idx] / the final rest); nothing is dropped (e.g. for equalling its predecessor) or edited (a prefix
+    # stripped depending on which line was asked for)
+    pushes = [(bi, t) for bi, t in q.calls_to(b, "Vec::<T, A>::push") if "MutexGuard" in q.shape(q.arg_expr(b, t, 0)) or q.shape(q.arg_expr(b, t, 0), roles).endswith("lines")]
+    okp = len(pushes) == 1
+    if okp:
+        pb, pt = pushes[0]
+        arg = q.arg_expr(b, pt, 1)
+        ptr_of = [x for x in arg.walk() if isinstance(x, Call) and q.nice(x.callee) == "slice::as_ptr"]
+        len_of = [x for x in arg.walk() if isinstance(x, Call) and q.nice(x.callee) == "slice::len"]
+        rvl = set(q.root_local(x.args[0]) for x in ptr_of + len_of)
+        okp = q.wild("converts::from_utf8_unchecked(raw::from_raw_parts(slice::as_ptr(*),slice::len(*)))", q.shape(arg, roles)) and len(rvl) == 1 and None not in rvl
+        if okp:
+            rv_shapes = sorted(sh for sh, _, _ in q.def_shapes(b, list(rvl)[0], roles))
+            okp = rv_shapes in (sorted(["rest[RangeTo{end:idx}]", "rest"]), ["rest[RangeTo{end:idx}]"] if False else sorted(["rest[RangeTo{end:idx}]", "rest"]))
+        heads = [h for h in dict(b.loops())]
+        pos = [bi for bi, t in q.calls_to(b, "Iterator::position")]
+        okp = okp and len(heads) == 1 and bool(pos) and all(pb in b.reachable_blocks(pos[0]) for _ in (0,)) and _loop_always(b, heads[0], pb)
+    ctx.check(okp, rule, fn, "cache:every-piece", "each scanned piece is cached as it is: one unconditional push per iteration of the bytes rest[..idx] (or the final rest)",
+              detail=str([q.shape(b.expr_of_call(t), roles)[:160] for _, t in pushes]))
     # progress
     adds = [(bi, q.shape(q.arg_expr(b, t, 1), roles)) for bi, t in q.calls_to(b, "fetch_add")]
     shapes = sorted(s for _, s in adds)
